@@ -8,7 +8,7 @@ stream() { for p in "$@"; do for d in seeded/$p-*/; do n=$(basename $d); timeout
 stream C01 C05 C09 C13 C17 &
 stream C02 C06 C10 C14 C18 &
 stream C03 C07 C11 C15 C19 &
-stream C04 C08 C12 C16 &
+stream C04 C12 C16 C08 &
 wait
 declare -A owner=( [C20-r2-1]=C16 [C20-r2-2]=C09 [C20-r2-3]=C06 [C20-r3-1]=C08 [C20-r3-2]=C09 [C20-r3-3]=C19 )
 for d in seeded/C20-*/; do n=$(basename $d); o=${owner[$n]}; props=C20; [ -n "$o" ] && props=C20,$o
